@@ -298,6 +298,33 @@ theorem partial_poll_records_undelivered_tip :
     (pollBlocks cfg s node [(101, 101, [])] 103).1.mem.wHeight = 101 := by
   constructor <;> rfl
 
+/-- **already_in_chain_leaves_no_tracker** (negative, general): when the node answers a penalty with
+"already in chain" — the penalty is confirmed but not in the responder's index, e.g. because it was handed
+to the node, the process died before the tracker was stored, and it was mined while the tower was down —
+replaying the breach records nothing: no tracker is created and the appointment is not marked invalid, so
+it stays "being watched" although it has been responded to. -/
+theorem already_in_chain_leaves_no_tracker (s : Tower) (node : Node) (k : Uuid) (d p : TxId) (a : Appt)
+    (inv : List Uuid) (log : List Rpc)
+    (ha : s.db.appts k = some a) (hd : a.blob.decrypt d = some p) (hi : s.mem.txIndex.get p = none)
+    (hm : s.mem.receipts p = none) (hg : node.get p = .found true)
+    (hs : node.send p = .rpc Gen.RPC_VERIFY_ALREADY_IN_CHAIN) :
+    (breachStep node d (s, inv, log) k).1.db.trackers = s.db.trackers ∧
+    (breachStep node d (s, inv, log) k).1.db.appts = s.db.appts ∧
+    (breachStep node d (s, inv, log) k).2.1 = inv := by
+  have hv : sendVerdict s.mem.cHeight (node.send p) = .irrevocablyResolved := by
+    rw [hs]; rfl
+  have hmp : carrierInMempool node p = false := by unfold carrierInMempool; rw [hg]; rfl
+  have hb : handleBreach s node k d p a.user =
+      ({ s with mem := (carrierSend s.mem node p).1 }, .irrevocablyResolved, .get p :: (carrierSend s.mem node p).2.2) := by
+    unfold handleBreach
+    simp only [hi, hmp, Bool.false_eq_true, ↓reduceIte]
+    have : (carrierSend s.mem node p).2.1 = .irrevocablyResolved := by
+      rw [carrierSend_fresh s.mem node p hm]; exact hv
+    simp [this, CStatus.accepted]
+  unfold breachStep
+  simp only [ha, hd, hb, CStatus.isRejected, Bool.false_eq_true, ↓reduceIte]
+  exact ⟨trivial, trivial, trivial⟩
+
 set_option maxRecDepth 20000 in
 /-- non-vacuity of `durable_inv_every_prefix`: an actual operation log, cut in the middle -/
 example :
